@@ -82,10 +82,10 @@ func vRestartPod(i, form int) (corev1.Pod, []k8s.Port) {
 	return pod, want
 }
 
-// BOUND: the node runs 2..3 pods (listed in name order), each in one of 6 forms (host port, host port with host IP, two host ports the first with host IP, random port mapping recorded in the annotation, no pod IP yet, host network); prior NAT table: basic chains plus a foreign chain, optionally a stale KUBE-HP chain; the start-up synchronisation (setupIPtables) must leave exactly the host-port chains and rules that a synchronisation for the pods' own mappings leaves on a fresh table, hold every fixed host port, and the later teardown of any one pod (CleanPortMapping with its own ports) must leave no rule with that pod's address behind
+// BOUND: the node runs 2..3 pods (thorough: 2..4) (listed in name order), each in one of 6 forms (host port, host port with host IP, two host ports the first with host IP, random port mapping recorded in the annotation, no pod IP yet, host network); prior NAT table: basic chains plus a foreign chain, optionally a stale KUBE-HP chain; the start-up synchronisation (setupIPtables) must leave exactly the host-port chains and rules that a synchronisation for the pods' own mappings leaves on a fresh table, hold every fixed host port, and the later teardown of any one pod (the daemon's cleanupPortMapping with the port file its ADD recorded) must leave no rule with that pod's address behind and none of its host ports bound
 // ASSUME: C14: the API server is a stub that lists the given pods; the kernel NAT table is the repository's in-memory iptables fake
 func VerifC14_q_restartSync() {
-	n := 2 + nondetChoice(2)
+	n := 2 + nondetChoice(2+verifTier())
 	var pods []corev1.Pod
 	var want [][]k8s.Port
 	var all []k8s.Port
@@ -134,11 +134,19 @@ func VerifC14_q_restartSync() {
 	if len(want[victim]) == 0 {
 		return
 	}
-	if err := h.CleanPortMapping(want[victim]); err != nil {
+	// the DEL of the pod's container: the ports were recorded in its port file by the ADD before the restart
+	data, _ := json.Marshal(want[victim])
+	if err := k8s.SavePort("verif-c14r", data); err != nil {
+		return
+	}
+	if err := g.cleanupPortMapping(vPortReq("verif-c14r", pods[victim].Name)); err != nil {
 		verifAssert("C14/restart-teardown-succeeds?", false, "the teardown of a pod synchronised at start-up failed: "+err.Error())
 		return
 	}
 	verifReach("torn-down-after-restart")
+	for _, p := range want[victim] {
+		verifAssert("C14/restart-teardown-closes-port", !portmapping.VerifPortHeld(strings.ToLower(p.Protocol), p.HostPort), "a host port galaxy re-opened at start-up is still bound after the pod was torn down")
+	}
 	after := vGalaxyNatLines(vNat(fake))
 	verifAssert("C14/restart-teardown-complete", !strings.Contains(after, want[victim][0].PodIP+":") && !strings.Contains(after, want[victim][0].PodIP+"/32"), "rules of a torn-down pod are left behind after a start-up synchronisation: "+after)
 }
